@@ -37,6 +37,8 @@ FILE_PROPS = {
     "src/io_uring/config.rs": ["C18"],
     "src/io_uring/pipe.rs": ["C07", "C13"],
     "src/io_uring/process.rs": ["C13"],
+    "src/io_uring/poll.rs": ["C13", "C02"],
+    "src/io_uring/mem.rs": ["C13"],
     "src/io/mod.rs": ["C10", "C07", "C13"],
     "src/io/traits.rs": ["C14", "C10"],
     "src/io/read_buf.rs": ["C15", "C08", "C10"],
